@@ -20,6 +20,7 @@ import (
 
 	oci "github.com/opencontainers/runtime-spec/specs-go"
 	orderedyaml "gopkg.in/yaml.v3"
+	"sigs.k8s.io/yaml"
 	"tags.cncf.io/container-device-interface/pkg/cdi"
 	"tags.cncf.io/container-device-interface/schema"
 )
@@ -70,10 +71,33 @@ func sortedCopy(s []string) []string {
 	return out
 }
 
+// cliRow runs the row; what disagrees is run a second time and counts only if it disagrees again in the same
+// way (a tool process that could not get an inotify instance or a descriptor on a busy machine is not a verdict)
 func cliRow(idx int, line []byte, seed int64, cdiBin string, col *collector) {
+	var first, second []Mismatch
+	cliRowOnce(idx, line, seed, cdiBin, func(m Mismatch) { first = append(first, m) }, col.done)
+	if len(first) == 0 {
+		return
+	}
+	time.Sleep(200 * time.Millisecond)
+	cliRowOnce(idx, line, seed, cdiBin, func(m Mismatch) { second = append(second, m) }, func([]byte, bool, int) {})
+	for _, m := range first {
+		again := false
+		for _, n := range second {
+			again = again || (n.What == m.What && n.Step == m.Step)
+		}
+		if again {
+			col.add(m)
+		} else {
+			col.count("disagreements_not_reproduced", 1)
+		}
+	}
+}
+
+func cliRowOnce(idx int, line []byte, seed int64, cdiBin string, add func(Mismatch), done func([]byte, bool, int)) {
 	var row mRow
 	if err := json.Unmarshal(line, &row); err != nil {
-		col.add(Mismatch{Case: idx, Step: -1, Props: []string{"TOOL"}, What: "bad-row", Note: err.Error()})
+		add(Mismatch{Case: idx, Step: -1, Props: []string{"TOOL"}, What: "bad-row", Note: err.Error()})
 		return
 	}
 	w := &cacheWorld{root: mkScratch("cli")}
@@ -85,12 +109,12 @@ func cliRow(idx int, line []byte, seed int64, cdiBin string, col *collector) {
 	sort.Strings(ids)
 	for _, id := range ids {
 		if err := w.setDir(id, row.Fs0[id]); err != nil {
-			col.add(Mismatch{Case: idx, Step: -1, Props: []string{"TOOL"}, What: "materialise", Note: err.Error()})
+			add(Mismatch{Case: idx, Step: -1, Props: []string{"TOOL"}, What: "materialise", Note: err.Error()})
 			return
 		}
 	}
 	if len(row.Dirs) == 0 {
-		col.done(line, false, 0)
+		done(line, false, 0)
 		return // without -d the tool reads the system directories
 	}
 	paths := make([]string, len(row.Dirs))
@@ -100,7 +124,7 @@ func cliRow(idx int, line []byte, seed int64, cdiBin string, col *collector) {
 	dflag := strings.Join(paths, ",")
 	report := func(step int, m Mismatch) {
 		m.Case, m.Step, m.Row, m.Props = idx, step, json.RawMessage(line), []string{"C19"}
-		col.add(m)
+		add(m)
 	}
 	// the library on the same directories, configured as the tool configures it
 	lib, _ := cdi.NewCache(cdi.WithSpecDirs(paths...))
@@ -134,7 +158,7 @@ func cliRow(idx int, line []byte, seed int64, cdiBin string, col *collector) {
 		if d.Code == 0 {
 			report(1, Mismatch{What: "exit-status-with-cache-errors", Want: "non-zero", Got: d.Code, Note: d.Out})
 		}
-		col.done(line, true, steps)
+		done(line, true, steps)
 		return
 	}
 	d := runTool(cdiBin, "-d", dflag, "devices")
@@ -218,7 +242,7 @@ func cliRow(idx int, line []byte, seed int64, cdiBin string, col *collector) {
 			}
 		}
 	}
-	col.done(line, len(libDevs) > 0, steps)
+	done(line, len(libDevs) > 0, steps)
 }
 
 func cliMain(args []string) int {
@@ -277,6 +301,25 @@ func cliMain(args []string) int {
 				err := cmd.Run()
 				if (err == nil) != (sc.s.ValidateData(row.Doc) == nil) {
 					col.add(Mismatch{Case: idx, Step: si, Props: []string{"C19"}, What: "validate-tool-exit-status-stdin", Want: sc.s.ValidateData(row.Doc) == nil, Got: fmt.Sprint(err), Note: sc.name, Row: json.RawMessage(line)})
+				}
+			}
+			// the YAML encoding of the same document: as a file and through stdin
+			if yb, yerr := yaml.JSONToYAML(row.Doc); yerr == nil {
+				yf := filepath.Join(dir, "doc.yaml")
+				_ = os.WriteFile(yf, yb, 0o644)
+				want := builtin.ValidateFile(yf) == nil
+				if r := runTool(*valBin, "--schema", "builtin", yf); (r.Code == 0) != want {
+					col.add(Mismatch{Case: idx, Step: 3, Props: []string{"C19"}, What: "validate-tool-exit-status", Want: fmt.Sprintf("0 iff the library accepts (%v)", want), Got: r.Code,
+						Note: "builtin, YAML file\n" + r.Out, Row: json.RawMessage(line)})
+				}
+				for _, dash := range [][]string{{}, {"-"}} {
+					cmd := exec.Command(*valBin, append([]string{"--schema", "builtin"}, dash...)...)
+					cmd.Stdin = bytes.NewReader(yb)
+					err := cmd.Run()
+					if (err == nil) != (builtin.ValidateData(yb) == nil) {
+						col.add(Mismatch{Case: idx, Step: 4, Props: []string{"C19"}, What: "validate-tool-exit-status-stdin", Want: builtin.ValidateData(yb) == nil, Got: fmt.Sprint(err),
+							Note: fmt.Sprint("builtin, YAML through stdin ", dash), Row: json.RawMessage(line)})
+					}
 				}
 			}
 			col.count("validate_tool_documents", 1)
